@@ -60,6 +60,19 @@ def run(repo, res):
                   % (key, r['wrong_scope'][0][2] if r['wrong_scope'] else '',
                      'new' if kind in ('param', 'posonly') else 'enclosing'),
                   sample='%s bound in the %s scope' % (key, 'new' if kind in ('param', 'posonly') else 'enclosing'))
+    hyg = R.binding_hygiene_records(repo)
+    seen_sp = set()
+    for cls, variant, ipath, line in hyg['spurious']:
+        k = '%s binds %s' % (R.method_name(repo, cls), ipath)
+        if k in seen_sp:
+            continue
+        seen_sp.add(k)
+        res.check('C05-R1', k, False, line[0], line[1],
+                  'on %s shape `%s` the identifier at %s is registered as a binding of the current scope although the construct only reads '
+                  'it (`for obj.attr in xs`, `with cm as table[key]` read obj / table / key): the name becomes a local and masks the outer '
+                  'binding it refers to' % (cls, variant, ipath))
+    res.ob('C05-R1', 'only the identifiers a construct binds are registered', not hyg['spurious'],
+           sample='%d shape paths: every registered binding corresponds to a binder of the language reference' % hyg['n'])
     M.check_scopes(repo, res, 'C05-R2', 'C05-R3')
 
     # ---- R4 who may write scope.locals ------------------------------------------------------------
